@@ -36,6 +36,7 @@ class Pkt:
         self.meta = meta or {}
         self.offset = None
         self.word_offsets = []
+        self.full = None            # complete RDH field dict as serialized
 
     def copy(self):
         p = Pkt(self.link, dict(self.f), [[k, bytes(w)] for k, w in self.words], self.pad, dict(self.meta))
@@ -76,9 +77,15 @@ class Stream:
             pl = p.payload(p.f.get("data_format", self.fmt) if False else self.fmt)
             p.offset = len(out)
             size = 64 + len(pl)
-            f = dict(p.f)
+            f = dict(R.DEFAULT)
+            f.update(p.f)
             f.setdefault("offset_to_next", size)
             f.setdefault("memory_size", size)
+            if "offset_to_next" not in p.f:
+                f["offset_to_next"] = size
+            if "memory_size" not in p.f:
+                f["memory_size"] = size
+            p.full = f
             out += R.pack(f) + pl
             p.word_offsets = [p.offset + 64 + k * slot for k in range(len(p.words))]
         return bytes(out)
